@@ -7,7 +7,6 @@
 #define MULMOD(a, b, m) MOD(MUL((a), (b)), (m))
 #define INVERTIBLE(a, m) UF(invertible)((a), (m))
 #define INV(a, m) UF(invert)((a), (m))
-#define MPZ_OK(x) __CPROVER_is_fresh((x), sizeof(__mpz_struct))
 /* class invariant of an initialised signer object (CheckGroup passed, tables precomputed) */
 #define SIG_INV(self) (__CPROVER_is_fresh((self), sizeof(*(self))) && \
    __CPROVER_is_fresh((self)->fpowm_table_g, TMCG_MAX_FPOWM_T * sizeof(mpz_t)) && \
